@@ -223,7 +223,15 @@ func (e *kvElection) handleWatchEvent(entry Entry) {
 				)...,
 			)
 			if e.becomeFollower() {
-				e.notifyDemoted("leadership_lost_via_watcher")
+				// Not on this goroutine: it is the watch loop, which must go on
+				// following the key (and running the periodic check) however long
+				// the application's OnDemote takes.
+				e.wg.Add(1)
+				go func() {
+					defer e.wg.Done()
+					e.notifyDemoted("leadership_lost_via_watcher")
+				}()
+				e.observeLeader(newLeaderID, entry.Revision())
 			}
 		}
 		return
